@@ -94,7 +94,7 @@ func (b *Bind) GetSet() *ResultSet {
 //    https://tools.ietf.org/html/draft-cridland-xmpp-session-01
 type StreamSession struct {
 	XMLName  xml.Name  `xml:"urn:ietf:params:xml:ns:xmpp-session session"`
-	Optional *struct{} // If element does exist, it mean we are not required to open session
+	Optional *struct{} `xml:"optional"` // If element does exist, it mean we are not required to open session
 	// Result sets
 	ResultSet *ResultSet `xml:"set,omitempty"`
 }
